@@ -462,6 +462,9 @@ class Inliner:
             c = self._callee(node, caller_cls, bases)
             if c is not None and parent is not None and self._inlinable(c[0], stack):
                 return parent, field, idx, node
+            if isinstance(node.func, ast.Name) and node.func.id in ("super", "len", "isinstance") and not node.keywords \
+                    and all(not any(isinstance(x, ast.Call) for x in ast.walk(a)) or a in [o[1] for o in order] for a in node.args):
+                continue  # super() / len(x) / isinstance(x, T): no effect, nothing to reorder against
             return None  # another call is evaluated first: moving the helper call before it could reorder effects
         return None
 
